@@ -29,6 +29,8 @@ Decides:
  C doc writers    only write_str / write (and the Doc-splicing doc / em_doc / first_line) append to Doc.payload, and they record exactly the
                    number of BYTES appended in the Text token (a char pushed with length 1 shifts every later name of the help).
  B builders       help(..), descr/header/footer/usage/version, group_help, custom_usage store their argument in the field of the same name (wiring table).
+ H has_help        table per HelpItem variant: a variant with an optional help is listed inside an adjacent block exactly when its help is Some.
+ H env values      the current value of an environment variable enters the help only Debug-quoted ({:?}): its line breaks cannot act as paragraph breaks.
 Does not decide: de-duplication and grouping outcomes for particular shapes."""
 import re
 from core import *
